@@ -616,6 +616,13 @@ macro_rules! bf_common {
                         c.set_position(0);
                         own(T::deserialize_full(&mut c)?)
                     }
+                    "eps8" => {
+                        // the same bytes placed at 8 modulo 16 (a legitimate buffer for ε-serde)
+                        let mut bytes: Vec<u8> = Vec::new();
+                        b.serialize(&mut bytes)?;
+                        // (16-byte words need 16-byte alignment: for them the placement stays at 0 modulo 16)
+                        S::Eps(T::deserialize_eps(crate::util::leak_aligned(&bytes, std::mem::size_of::<Wd>() < 16))?)
+                    }
                     "eps" => {
                         let mut c = <AlignedCursor>::new();
                         b.serialize(&mut c)?;
